@@ -293,6 +293,44 @@ pub fn run(tier: Tier) -> i32 {
             rep.violation(&key, || what, || json!({"kind": "build_str", "source": src, "observed": o.to_json()}));
         }
     });
+    // an instruction the device has, between a jump over it and a label behind it: both passes must
+    // agree on its length on every device, or the jumps around it go astray
+    let n_between = AtomicU64::new(0);
+    work.par_iter().for_each(|(d, fm)| {
+        if removed_by(fm, &d.flags).is_some() {
+            return;
+        }
+        let avr8l = d.flags.contains("Avr8l");
+        for c in [&fm.variants[0], &fm.variants[fm.variants.len() - 1]] {
+            if icase::is_relative(c.mnem) {
+                continue;
+            }
+            let w: Option<Vec<u8>> = if avr8l && (c.mnem == "lds" || c.mnem == "sts") { icase::expect_bytes(Core::Reduced, c) } else { nodev.get(&c.text()).cloned() };
+            let w = match w {
+                Some(w) => w,
+                None => continue,
+            };
+            let src = format!(".device {}\nrjmp end_l\n{}\nend_l: rjmp end_l\n.dw end_l\n", d.name, c.text());
+            let o = sut::build_str(&src);
+            evals.fetch_add(1, Ordering::Relaxed);
+            n_between.fetch_add(1, Ordering::Relaxed);
+            let words = (w.len() / 2) as u16;
+            let mut want: Vec<u8> = vec![];
+            want.extend((0xc000u16 | words).to_le_bytes());
+            want.extend(w.iter());
+            want.extend(0xcfffu16.to_le_bytes());
+            want.extend((1 + words).to_le_bytes());
+            let bad = match &o {
+                Outcome::Ok(b) if b.code == want => None,
+                Outcome::Ok(b) => Some(format!("assembles to {} instead of {}", sut::hex(&b.code), sut::hex(&want))),
+                Outcome::Err(e) => Some(format!("is rejected: {}", e)),
+                Outcome::Panic { site, msg } => Some(format!("panics at {}: {}", site, msg)),
+            };
+            if let Some(what) = bad {
+                rep.violation(&format!("C13/jumps-around-an-available-instruction/form={}/device={}", fm.name, d.name), || format!("`rjmp end_l / {} / end_l: rjmp end_l / .dw end_l` on {} {}", c.text(), d.name, what), || json!({"kind": "build_str", "source": src, "expected": {"result": "ok", "code": sut::hex(&want)}, "observed": o.to_json()}));
+            }
+        }
+    });
     // the device may also be selected after a code line, inside the body of an invoked macro, or
     // in an included file: the gate must follow the device that is in force
     let n_select = AtomicU64::new(0);
@@ -396,13 +434,14 @@ pub fn run(tier: Tier) -> i32 {
     let coverage = cov(json!({
         "evaluations": evals.load(Ordering::Relaxed),
         "distinct_nontrivial": work.len(),
-        "rule": "(+ per device every ordered pair of forms of the same mnemonic and every form before/after nop, in one build) every row of the device table x every instruction form (mnemonic, and addressing mode for ld/st/ldd/std/lpm/elpm) x operand variants; distinct_nontrivial = distinct (device, form) pairs, each of which is a device-selected build with a non-empty expected verdict",
+        "rule": "(+ per device every ordered pair of forms of the same mnemonic and every form before/after nop, in one build; every available form between a jump over it and the label behind it) every row of the device table x every instruction form (mnemonic, and addressing mode for ld/st/ldd/std/lpm/elpm) x operand variants; distinct_nontrivial = distinct (device, form) pairs, each of which is a device-selected build with a non-empty expected verdict",
         "exhaustive": true,
         "devices": devs.len(),
         "forms": forms.len(),
         "absent_combinations_checked": absent.load(Ordering::Relaxed),
         "present_combinations_checked": present.load(Ordering::Relaxed),
         "two_instruction_programs": n_pairs.load(Ordering::Relaxed),
+        "jumps_around_an_available_instruction_programs": n_between.load(Ordering::Relaxed),
         "device_selected_elsewhere_programs": n_select.load(Ordering::Relaxed),
         "sibling_spelling_programs": n_sibling.load(Ordering::Relaxed),
         "forms_removed_per_flag": effective,
